@@ -338,7 +338,7 @@ func (p *Prog) encodeFunctionIn(fn *ssa.Function, ct *Contract, workdir string) 
 	}
 	// site patterns that never matched: stale contract
 	for si, s := range ct.Sites {
-		if e.siteHits[si] == 0 {
+		if e.siteHits[si] == 0 && !strings.HasPrefix(s.Cl.Text, "nocall ") {
 			e.specError(fmt.Sprintf("%s: site clause %q matched no call (pattern %s) — contract is stale or the call was removed", ct.Key, s.Cl.Text, s.Pattern))
 		}
 	}
